@@ -5,7 +5,7 @@ from dst.world.program import named_params
 
 class Call:
     __slots__ = ("cid", "fid", "params", "hidx", "yields", "rebinds", "awaits", "end", "end_idx", "end_key",
-                 "ret", "exc", "at_yield", "resumptions", "states", "state_at", "params_obj", "await_idx", "mu_times")
+                 "ret", "exc", "at_yield", "resumptions", "states", "state_at", "params_obj", "await_idx", "mu_times", "last_kind", "delegates", "caught", "bypass")
 
     def __init__(self, cid, fid, params, hidx):
         self.cid, self.fid, self.params, self.hidx = cid, fid, params, hidx
@@ -21,6 +21,10 @@ class Call:
         self.state_at = _identity_state
         self.params_obj = None
         self.await_idx = []   # journal indices of the A records (await suspensions)
+        self.last_kind = "E"  # kind of the last journal record this activation wrote itself
+        self.delegates = []   # cids of generators this one delegated to with `yield from`
+        self.caught = False   # a thrown exception was caught at a yield and the body has not yielded again yet
+        self.bypass = set()   # journal indices of yields that were the direct result of a throw() (see merged())
         self.mu_times = _no_times
 
 
@@ -69,8 +73,30 @@ def _parse_journal(J):
     calls = {}
     by_handle = {}
     order = []  # completed calls in completion order
+    in_throw = None
+    bypass_for = {}   # journal index of a Y record -> cids of delegating generators the value did not pass through
     for idx, rec in enumerate(J):
         t = rec[0]
+        if t == "TH":
+            # generator.throw(): the frames that are suspended in a `yield from` at this moment hand the exception down without
+            # being resumed, and the first value yielded below them comes back as throw()'s result without passing through them
+            chain = set()
+            c = by_handle.get(rec[1])
+            while c is not None and c.last_kind == "YF" and c.delegates and c.delegates[-1] in calls and calls[c.delegates[-1]].end is None:
+                chain.add(c.cid)
+                c = calls[c.delegates[-1]]
+            in_throw = chain
+        elif t == "TE":
+            in_throw = None
+        elif in_throw is not None:
+            # a delegating frame that writes a record of its own has been resumed (its delegate finished or it caught the
+            # exception itself): from then on values pass through it again
+            owner = rec[1] if t in ("Y", "B", "A", "RZ", "C", "MU", "RND", "YF", "R") else (rec[3] if t == "XS" and len(rec) > 3 else (rec[4] if t == "XH" and len(rec) > 4 else None))
+            if owner in in_throw:
+                in_throw = in_throw - {owner}
+            if t == "Y":
+                bypass_for[idx] = in_throw
+                in_throw = None
         if t == "E":
             c = Call(rec[1], rec[2], rec[3], rec[4])
             calls[rec[1]] = c
@@ -78,11 +104,23 @@ def _parse_journal(J):
                 by_handle[rec[4]] = c
         elif t == "Y":
             calls[rec[1]].yields.append((idx, rec[2]))
+            calls[rec[1]].last_kind = "Y"
+
         elif t == "B":
             calls[rec[1]].rebinds.append((idx, rec[2], rec[3]))
+            calls[rec[1]].last_kind = "B"
         elif t == "A":
             calls[rec[1]].awaits += 1
             calls[rec[1]].await_idx.append(idx)
+            calls[rec[1]].last_kind = "A"
+        elif t in ("RZ", "C", "MU", "RND"):
+            if rec[1] in calls:
+                calls[rec[1]].last_kind = t
+                if t == "C":
+                    calls[rec[1]].caught = True
+        elif t == "YF":
+            calls[rec[1]].delegates.append(rec[2])
+            calls[rec[1]].last_kind = "YF"
         elif t == "R":
             c = calls[rec[1]]
             c.end, c.end_idx, c.end_key, c.ret = "R", idx, idx, rec[2]
@@ -91,8 +129,15 @@ def _parse_journal(J):
             c = calls.get(rec[1])
             if c is not None and c.end is None and J[rec[1]][0] == "E":
                 c.end, c.end_idx, c.end_key, c.exc = "X", idx, idx - 0.5, rec[2]
+                # a delegate generator (yield from) that was suspended at a yield when the exception arrived (thrown into /
+                # closing the delegating generator) and wrote nothing afterwards: ended by an exception raised at that yield
+                c.at_yield = c.last_kind == "Y"
                 order.append(c)
+            if len(rec) > 3 and rec[3] in calls:
+                calls[rec[3]].last_kind = "XS"
         elif t == "XH":
+            if len(rec) > 4 and rec[4] in calls:
+                calls[rec[4]].last_kind = "XH"
             c = by_handle.get(rec[1])
             if c is not None and c.end is None:
                 c.end, c.end_idx, c.end_key, c.exc, c.at_yield = "X", idx, idx - 0.5, rec[2], bool(rec[3])
@@ -102,6 +147,26 @@ def _parse_journal(J):
             if c is not None and c.end is None:
                 c.end, c.end_idx, c.end_key, c.exc, c.at_yield = "X", idx, idx - 0.5, "GeneratorExit", True
                 order.append(c)
+    # a generator yields what the generators it delegates to yield (values travel up through its frame)
+    done = set()
+
+    def merged(c):
+        if c.cid in done:
+            return c.yields
+        done.add(c.cid)
+        for d in c.delegates:
+            if d in calls:
+                # a value the delegate yields right after catching an exception that was thrown in comes back as the result of
+                # throw() itself: CPython hands it to the caller without resuming the delegating frames, so it never passes
+                # through them (no profile event there) - not counted as a yield of the delegating generator
+                sub = merged(calls[d])
+                c.yields = c.yields + [y for y in sub if y not in c.yields and c.cid not in bypass_for.get(y[0], ())]
+        c.yields.sort(key=lambda y: y[0])
+        return c.yields
+
+    for c in calls.values():
+        if c.delegates:
+            merged(c)
     order.sort(key=lambda c: c.end_key)
     return calls, order
 
@@ -418,17 +483,18 @@ def faithful(prefix, lp, c, f, tr, gt, sampled):
             cands = [vals]
             # a shared container may have been mutated (by other code) while the coroutine was suspended: the values a trace
             # started at a later resumption sees are those of that moment
-            for k_a, a_idx in enumerate(c.await_idx):
-                hi = c.await_idx[k_a + 1] if k_a + 1 < len(c.await_idx) else (c.end_idx if c.end_idx is not None else a_idx)
-                cands.extend(states_while_suspended(c, a_idx, hi, rebind_prefix=p))
-            for vals in cands:
+            # (suspensions inside awaited callees leave no record of this activation: every moment of its lifetime is a candidate)
+            cands.extend(states_while_suspended(c, c.cid, c.end_idx, rebind_prefix=p))
+            hit_later = False
+            for n_c, vals in enumerate(cands):
                 a_p = {n: T.tnorm(gt(vals[n])) for n in names}
                 if got_args == a_p and tok_only and got_ret == exp_ret:
                     hit_p = p
+                    hit_later = n_c > 0 and a_p != {n: T.tnorm(gt(cands[0][n])) for n in names}
                     break
             if hit_p is not None:
                 for kname, _ in problems:
-                    if kname != "yield-cover" or p > 0 or c.await_idx:
+                    if kname != "yield-cover" or p > 0 or hit_later:
                         cause_of.setdefault(kname, "sampled_midlife_start")
                 break
     for kname, msg in problems:
